@@ -49,6 +49,9 @@ func Fixed(v float64, digits int) (lo, hi []int, sign int, exact bool) {
 		sign = -1
 		v = -v
 	}
+	if math.IsNaN(v) || math.IsInf(v, 0) {
+		v = 1e300 // a non-finite observation is recorded as a value no tolerance accepts
+	}
 	r := new(big.Rat).SetFloat64(v)
 	r.Mul(r, new(big.Rat).SetInt(p10(digits)))
 	q := new(big.Int).Quo(r.Num(), r.Denom())
